@@ -189,10 +189,20 @@ void h_ntt_levels(void) {
     uint64_t* x = (uint64_t*)malloc(4 * (size_t)N * 8);
     uint64_t* y = (uint64_t*)malloc(4 * (size_t)N * 8);
     uint64_t st = 88172645463325252ull ^ VF_LX[0];
-    for (int trial = 0; trial < 40; ++trial) {
+    for (int trial = 0; trial < 40 + 4 * 17; ++trial) {
       for (uint64_t i = 0; i < 4 * (uint64_t)N; ++i) {
         st ^= st << 13, st ^= st >> 7, st ^= st << 17;
         uint64_t v;
+        if (trial >= 40) {
+          /* butterfly-shaped extremes for every level: blocks of 2^t coefficients alternately maximal and zero (one operand of every butterfly of
+           * that level maximal, its partner zero), both phases, and the same with "just below a multiple of q" as the maximal value */
+          const unsigned t = (unsigned)(trial - 40) / 4, ph = (unsigned)(trial - 40) & 1, kind = ((unsigned)(trial - 40) >> 1) & 1;
+          const uint64_t big = kind ? (~UINT64_C(0) / QS[i % 4]) * QS[i % 4] - 1 : ~UINT64_C(0);
+          v = ((((i / 4) >> t) & 1) == ph) ? big : 0;
+          x[i] = v;
+          y[i] = v % QS[i % 4];
+          continue;
+        }
         switch (trial) {
           case 0: v = ~UINT64_C(0); break;
           case 1: v = ((i / 4) & 1) ? 0 : ~UINT64_C(0); break;
